@@ -180,8 +180,11 @@ func judgeTokens(input []byte, toks []lexer.Token, lexErr error) (fs []c37Findin
 	}
 	byteOK, runeOK := true, true
 	var firstColBad string
+	// firstDeviation is the structural class of the first position whose column is not
+	// the plain ASCII answer: "end of <token>" or "start after <previous token>[(empty)]"
+	var firstDeviation string
 	lastChecked := -1
-	checkPos := func(p ast.Position, what string) {
+	checkPos := func(p ast.Position, what string, where string) {
 		if p.Offset < lastChecked || p.Offset > n {
 			return // non-monotone / out-of-range positions are reported by the other clauses
 		}
@@ -198,6 +201,9 @@ func judgeTokens(input []byte, toks []lexer.Token, lexErr error) (fs []c37Findin
 		}
 		if p.Column != rc {
 			runeOK = false
+		}
+		if (p.Column != bc || p.Column != rc) && firstDeviation == "" {
+			firstDeviation = where
 		}
 		if p.Column != bc && p.Column != rc && firstColBad == "" {
 			firstColBad = fmt.Sprintf("%s at offset %d: column %d, expected %d (bytes) or %d (runes)", what, p.Offset, p.Column, bc, rc)
@@ -234,10 +240,13 @@ func judgeTokens(input []byte, toks []lexer.Token, lexErr error) (fs []c37Findin
 			// (end = start-1 is the inclusive-end spelling of an empty token, e.g. the empty string segment after `\(a)` at end of input)
 			fs = append(fs, c37Finding{"lex|token-range-reversed", fmt.Sprintf("token %d (%s) range %d..%d", i, t.Type, t.StartPos.Offset, t.EndPos.Offset)})
 		}
-		checkPos(t.StartPos, fmt.Sprintf("start of token %d (%s)", i, t.Type))
-		checkPos(t.EndPos, fmt.Sprintf("end of token %d (%s)", i, t.Type))
+		checkPos(t.StartPos, fmt.Sprintf("start of token %d (%s)", i, t.Type), "start after "+prevType)
+		checkPos(t.EndPos, fmt.Sprintf("end of token %d (%s)", i, t.Type), "end of "+t.Type.String())
 		expect = t.EndPos.Offset + 1
 		prevType = t.Type.String()
+		if t.EndPos.Offset < t.StartPos.Offset {
+			prevType += "(empty)"
+		}
 	}
 	if len(toks) == 0 || toks[len(toks)-1].Type != lexer.TokenEOF {
 		if lexErr == nil {
@@ -272,7 +281,7 @@ func judgeTokens(input []byte, toks []lexer.Token, lexErr error) (fs []c37Findin
 				break
 			}
 		}
-		fs = append(fs, c37Finding{"lex|column-mismatch|" + cls, d})
+		fs = append(fs, c37Finding{"lex|column-mismatch|" + cls + "|" + firstDeviation, d})
 	} else if !byteOK || !runeOK {
 		if class == "clean" {
 			class = "non-ascii-columns"
@@ -1201,8 +1210,8 @@ func runC37(env *mc.Env) {
 					f, reused := poolOnce(a, b, consume, fresh[bi], freshErr[bi])
 					if reused {
 						reusedN++
-						env.R.Nontrivial(fmt.Sprintf("pool|%q|%q|%d", a, b, consume))
 					}
+					env.R.Nontrivial(fmt.Sprintf("pool|%q|%q|%d", a, b, consume))
 					classes["pool:compared"]++
 					if f != nil {
 						violation(env, f.sig, c37Case{Kind: "pool", Prev: a, Input: b, Consume: consume}, f.detail)
